@@ -50,7 +50,7 @@ def _font(draw, force_names=None):
         g = {"name": n, "width": 500, "unicodes": [u] if u else [], "contours": [[[0, 0, "line"], [100, 0, "line"], [100, 100, "line"]]], "anchors": []}
         r = draw(st.integers(0, 9))
         if r <= 4:
-            sfxs = draw(st.lists(st.sampled_from(["", "", "", ".LTR", ".RTL", ".foo", ".2.LTR", ".alt.RTL", ".2.RTL", ".alt.LTR", ".1"]), min_size=1, max_size=2, unique=True))
+            sfxs = draw(st.lists(st.sampled_from(["", "", "", ".LTR", ".RTL", ".foo", ".2.LTR", ".alt.RTL", ".2.RTL", ".alt.LTR", ".1", ".narrow", ".top", ".y", ".end.RTL"]), min_size=1, max_size=2, unique=True))
             for sfx in sfxs:
                 which = draw(st.sampled_from(["both", "entry", "exit"]))
                 if which in ("both", "entry"):
@@ -107,6 +107,10 @@ def _case(draw):
         # compiled as the masters of a designspace whose rules substitute 'a' by these alternates (per-master feature compilation)
         case["ds_rules"] = [["a", n] for n in DS_RULE_ALTS if n in names]
         case.pop("first", None)
+    elif "public.skipExportGlyphs" not in spec["lib"] and not spec.get("user_gdef") and draw(st.integers(0, 4)) == 0:
+        # a variable font (variable features) whose default source is listed second; the first source carries a stale category map
+        case["vf_default_second"] = True
+        case.pop("first", None)
     return case
 
 
@@ -152,7 +156,26 @@ def run_case(case, ctx):
         except Exception:
             pass
     with guard("compileTTF"):
-        if case.get("ds_rules"):
+        if case.get("vf_default_second"):
+            from fontTools.designspaceLib import AxisDescriptor, DesignSpaceDocument, SourceDescriptor
+
+            ds = DesignSpaceDocument()
+            ax = AxisDescriptor()
+            ax.name, ax.tag, ax.minimum, ax.default, ax.maximum = "Weight", "wght", 0, 0, 1000
+            ds.addAxis(ax)
+            stale = strip(spec)
+            stale["lib"] = dict(stale["lib"])
+            if "public.openTypeCategories" in stale["lib"]:
+                stale["lib"]["public.openTypeCategories"] = {k_: "ligature" for k_ in list(stale["lib"]["public.openTypeCategories"])[:1]}
+            else:
+                stale["lib"]["public.openTypeCategories"] = {spec["glyphs"][0]["name"]: "mark"}
+            for nm_, sp_, w_ in (("bold", stale, 1000), ("regular", strip(spec), 0)):
+                sd = SourceDescriptor()
+                sd.font, sd.name, sd.location = S.build(sp_, module), nm_, {"Weight": w_}
+                ds.addSource(sd)
+            t = ufo2ft.compileVariableTTF(ds, useProductionNames=False)
+            ctx.label("variable-font-default-source-listed-second")
+        elif case.get("ds_rules"):
             from fontTools.designspaceLib import AxisDescriptor, DesignSpaceDocument, RuleDescriptor, SourceDescriptor
 
             ds = DesignSpaceDocument()
